@@ -272,11 +272,13 @@ func Enumerate(spec Spec, workers int, stop func() bool, visit func(w int, rings
 		}
 		var st Stats
 		st.States = 1
+		own := 0
 		for i, rings := range spec.Explicit {
 			if i%shardN != shardI {
 				continue
 			}
-			if stop != nil && i&255 == 0 && stop() {
+			// (counted per shard: i itself is a multiple of 256 only in shard 0)
+			if own++; stop != nil && own&63 == 0 && stop() {
 				st.Aborted = true
 				break
 			}
